@@ -466,9 +466,12 @@ class Simulator:
         )
 
         protocol = protocol.copy()
+        # add the start in seconds, not as a Timedelta: a start that is not a whole
+        # number of nanoseconds would be rounded and the step ends would no longer be
+        # t_start + cumulative duration (as they are in simulate_protocol)
         protocol.index = (
-            cast(pd.TimedeltaIndex, protocol.index) + pd.Timedelta(t_start, unit="s")
-        ).total_seconds()
+            cast(pd.TimedeltaIndex, protocol.index).total_seconds() + t_start
+        )
 
         time_points = np.array(time_points, dtype=float)
         if time_points_as_relative:
